@@ -96,6 +96,7 @@ func (r *runner) eval(idx []int) *caseResult {
 			dump(dumpTo, idx, s)
 		}
 		r.nRes += int64(len(s.Clusters) + len(s.Listeners) + len(s.Routes) + len(s.Endpoints))
+		r.res.Count("rds_answers_under_other_name_orders", int64(len(s.RouteOrders)))
 		m := map[string]finding{}
 		for _, f := range check(s) {
 			if _, ok := m[f.sig()]; !ok {
@@ -216,7 +217,7 @@ func specsFor(thorough bool) []proxySpec {
 func TestC14(t *testing.T) {
 	env := engine.GetEnv()
 	res := engine.NewResult("C14", "snapshots")
-	res.Rule = "base configuration (a platform service with the sidecar as endpoint, a ServiceEntry, a Gateway, a VirtualService) + every subset of size <= 2 of the collision alphabet (thorough: + every subset of size 3) x proxies (quick: sidecar, router; thorough: + sidecar with interception NONE, IPv6-only router, waypoint); per case one real environment (core.NewConfigGenTest, unvalidated objects as the CRD client delivers them) and per proxy the real CDS, LDS, RDS (for every route name LDS references) and EDS (for every EDS cluster) generators with panics recovered; non-trivial = the snapshot of some proxy differs from the snapshot of the base alone and of every single object of the case alone (the objects interact or at least both matter)"
+	res.Rule = "base configuration (a platform service with the sidecar as endpoint, a ServiceEntry, a Gateway, a VirtualService) + every subset of size <= 2 of the collision alphabet (thorough: + every subset of size 3) x proxies (quick: sidecar, router; thorough: + sidecar with interception NONE, IPv6-only router, waypoint); per case one real environment (core.NewConfigGenTest, unvalidated objects as the CRD client delivers them) and per proxy the real CDS, LDS, RDS (for every route name LDS references, in one request; BuildHTTPRoutes again under every order of the names: all permutations up to 4 names, else rotations + descending) and EDS (for every EDS cluster, in one request, real XdsCache, cold and warm) generators with panics recovered; non-trivial = the snapshot of some proxy differs from the snapshot of the base alone and of every single object of the case alone (the objects interact or at least both matter)"
 	defer res.Write(t, env)
 
 	r := &runner{res: res, specs: specsFor(env.Thorough()), cache: map[string]*caseResult{}}
